@@ -1,7 +1,7 @@
 (* C18: the real-valued kernels (rounding, band shift, weights, mu2flux) and
    their tie to the integer formulas of model/M_Inject.v. *)
 From Coq Require Import Reals ZArith List Bool Lia Lra Psatz.
-From Sky Require Import Num NumR Result PyList G_inject M_Inject S_Inject.
+From Sky Require Import Num NumR Result PyList G_inject M_Inject S_Inject P_InjectMC.
 Import ListNotations.
 Open Scope R_scope.
 
@@ -191,6 +191,18 @@ Section R.
     - intros ->. unfold Rdiv. ring.
   Qed.
 
+  (* the weight of a candidate exactly as the source computes it (flux line of
+     calc_source_signal_mc_event_flux, source-weight factor, weight line of
+     _construct_signal_candidates, band solid angle), evaluated on the model's
+     integer fields: the model's c_wn / c_wd up to one positive constant *)
+  Theorem K_cand_weight_model (mw fx sw lt hw : Z) (lo hi u tf : R) :
+    hi - lo = 2 * IZR hw -> IZR hw <> 0 ->
+    cand_weight N (cand_flux_srcw N (cand_flux N u (IZR fx) (band_omega N hi lo)) (IZR sw)) (IZR lt) tf (IZR mw)
+    = IZR (mw * fx * sw * lt) / IZR hw * (u * tf / (4 * PI)).
+  Proof.
+    intros Hb Hh. rewrite K_cand_weight, K_band_omega, Hb. push_IZR. field. split; [exact PI_neq0|exact Hh].
+  Qed.
+
   (* ---------------------------------------------------------------- mu2flux *)
   Lemma K_mu_ref_N_k refN s : mu_ref_N_k N refN s = s * refN.
   Proof. unfold mu_ref_N_k, N. num_R. reflexivity. Qed.
@@ -252,3 +264,22 @@ Section R.
     refN <> 0 -> mu2flux_src mu refN phi0 u s = mu * s * phi0 * u / refN.
   Proof. intros H. unfold mu2flux_src. rewrite K_mu_flux_k, K_mu_ref_N_k. field. exact H. Qed.
 End R.
+
+(* the sampler vector of the model: p_i = (c_wn_i / c_wd_i) * W with one common
+   positive W, i.e. proportional to the real candidate weights *)
+Theorem samp_w_ratio (tbl : list cand) (i : nat) (c : cand) :
+  Forall (fun c => (0 < c_wd c)%Z) tbl -> nth_error tbl i = Some c ->
+  IZR (nth i (samp_w tbl) 0%Z) = IZR (c_wn c) / IZR (c_wd c) * IZR (zlcm_l (map c_wd tbl))
+  /\ (0 < zlcm_l (map c_wd tbl))%Z.
+Proof.
+  intros Hwd Hi. unfold samp_w. cbv zeta. rewrite (nth_samp _ _ _ _ Hi).
+  assert (Hall : Forall (fun d => (0 < d)%Z) (map c_wd tbl)).
+  { apply Forall_forall. intros d Hd. apply in_map_iff in Hd. destruct Hd as [c' [<- Hc']].
+    rewrite Forall_forall in Hwd. apply Hwd; exact Hc'. }
+  destruct (zlcm_l_spec _ Hall) as [HW Hdiv]. rewrite Forall_forall in Hdiv.
+  pose proof (nth_error_In _ _ Hi) as Hin.
+  destruct (Hdiv (c_wd c) (in_map c_wd _ _ Hin)) as [q Hq].
+  rewrite Forall_forall in Hwd. pose proof (Hwd c Hin) as Hd.
+  split; [|exact HW]. rewrite Hq, Z.div_mul by lia. push_IZR.
+  assert (IZR (c_wd c) <> 0) by (apply not_0_IZR; lia). field. assumption.
+Qed.
